@@ -50,6 +50,42 @@ var universe = map[string]error{
 	"RP": ers.ErrRecoveredPanic,
 }
 
+// the caller's own composite errors: Unwind() / Unwrap() []error hand out the object's OWN slice,
+// nil holes included (a per-slot batch result).  hBoth implements both with different meanings.
+type hUnwind struct {
+	name string
+	errs []error
+}
+type hUnwrap struct {
+	name string
+	errs []error
+}
+type hBoth struct {
+	name string
+	errs []error
+	alt  []error
+}
+
+func (h *hUnwind) Error() string   { return "hunwind:" + h.name }
+func (h *hUnwind) Unwind() []error { return h.errs }
+func (h *hUnwrap) Error() string   { return "hunwrap:" + h.name }
+func (h *hUnwrap) Unwrap() []error { return h.errs }
+func (h *hBoth) Error() string     { return "hboth:" + h.name }
+func (h *hBoth) Unwind() []error   { return h.errs }
+func (h *hBoth) Unwrap() []error   { return h.alt }
+
+func holey(kind, name string, errs []error) error {
+	switch kind {
+	case "hunwind":
+		return &hUnwind{name, errs}
+	case "hunwrap":
+		return &hUnwrap{name, errs}
+	case "hboth":
+		return &hBoth{name, errs, []error{universe["u2"]}}
+	}
+	panic("unknown holey kind " + kind)
+}
+
 // ------------------------------------------------------------------ terms
 
 type term struct {
@@ -58,8 +94,16 @@ type term struct {
 	Args []term `json:"args"`
 }
 
+type probe struct {
+	Path string   `json:"path"`
+	Mode string   `json:"mode"` // "seq": exactly this listing; "bag": these, in any order
+	IDs  []string `json:"ids"`
+}
+
 type obs struct {
 	Term   term            `json:"term"`
+	Sched  []string        `json:"sched"`
+	Probes []probe         `json:"probes"`
 	Agg    bool            `json:"agg"`
 	NonNil bool            `json:"nonnil"`
 	Ok     bool            `json:"ok"`
@@ -82,6 +126,31 @@ type builder struct {
 	annot  map[string]bool  // annotation texts handed to ers.Wrap
 	rootSt *ers.Stack
 	rootC  *erc.Collector
+
+	probes   map[string]probe // operands to observe (by path)
+	early    bool             // observe every such operand as soon as it is built, before its parent uses it
+	operands map[string]error // the operand values, for later observation
+	order    []string
+	fail     string // first wrong operand observation
+}
+
+// probeOne: ers.Unwind(operand) must list what the spec says, however often it is asked.
+func (b *builder) probeOne(path, when string) {
+	p := b.probes[path]
+	un := ers.Unwind(b.operands[path])
+	got := make([]string, len(un))
+	for i, e := range un {
+		got[i], _ = b.idOf(e)
+	}
+	ok := sameBag(got, p.IDs)
+	if ok && p.Mode == "seq" {
+		for i := range got {
+			ok = ok && got[i] == p.IDs[i]
+		}
+	}
+	if !ok && b.fail == "" {
+		b.fail = fmt.Sprintf("ers.Unwind(operand at %s) %s lists %v, the operand holds %v (%s)", path, when, got, p.IDs, p.Mode)
+	}
 }
 
 // build constructs the value of t; aggregates are remembered too ("st@path") so that the
@@ -90,9 +159,16 @@ func (b *builder) build(t term, path string, root bool) error {
 	e := b.build1(t, path, root)
 	if e != nil {
 		if _, ok := b.reg[e]; !ok {
-			if _, isSt := e.(*ers.Stack); isSt {
+			if st, isSt := e.(*ers.Stack); isSt && st != nil {
 				b.reg[e] = "st@" + path
 			}
+		}
+	}
+	if _, ok := b.probes[path]; ok && !root {
+		b.operands[path] = e
+		b.order = append(b.order, path)
+		if b.early {
+			b.probeOne(path, "before the operand is used")
 		}
 	}
 	return e
@@ -106,6 +182,16 @@ func (b *builder) build1(t term, path string, root bool) error {
 	switch t.Op {
 	case "nil":
 		return nil
+	case "nstack": // a typed-nil *ers.Stack in an error interface
+		if strings.Count(path, ".")%2 == 0 {
+			return ers.AsStack(nil)
+		}
+		var st *ers.Stack
+		return st
+	case "hunwind", "hunwrap", "hboth":
+		e := holey(t.Op, path, args)
+		b.reg[e] = "h@" + path
+		return e
 	case "leaf":
 		e := universe[t.ID]
 		b.reg[e] = t.ID
@@ -213,9 +299,57 @@ func replayTerm(in input) (res map[string]any) {
 			res = bad("panic", fmt.Sprintf("building or observing the term panicked: %v", r))
 		}
 	}()
-	b := &builder{reg: map[error]string{}, annot: map[string]bool{}}
-	r := b.build(o.Term, "r", true)
+	b := &builder{reg: map[error]string{}, annot: map[string]bool{}, probes: map[string]probe{}, operands: map[string]error{}}
+	for _, p := range o.Probes {
+		b.probes[p.Path] = p
+	}
+	if len(o.Sched) == 0 {
+		o.Sched = []string{"root"}
+	}
+	// the observation schedule: "probe" = ers.Unwind on every composite operand (before the first "root":
+	// while the term is being built, each operand before its parent uses it), "root" = the whole vector
+	var r error
+	built := false
+	roots := 0
+	for _, step := range o.Sched {
+		switch step {
+		case "probe":
+			if !built {
+				b.early = true
+				continue
+			}
+			for _, path := range b.order {
+				b.probeOne(path, "after the result was built and observed")
+			}
+			if b.fail != "" {
+				return bad("operand-unwind-unstable", b.fail)
+			}
+		case "root":
+			if !built {
+				r = b.build(o.Term, "r", true)
+				built = true
+				if b.fail != "" {
+					return bad("operand-unwind", b.fail)
+				}
+			}
+			roots++
+			if pred, what := observeRoot(b, o, r); pred != "" {
+				if roots > 1 {
+					what += " (second observation of the same result)"
+				}
+				return bad(pred, what)
+			}
+		default:
+			panic("unknown schedule step " + step)
+		}
+	}
+	return map[string]any{"n": in.N, "ok": true}
+}
 
+// observeRoot compares the whole observation vector of the result; "" = as the spec says.
+func observeRoot(b *builder, o obs, r error) (string, string) {
+	op := o.Term.Op
+	bad := func(pred, what string) (string, string) { return pred, what }
 	if (r != nil) != o.NonNil {
 		return bad("nil", fmt.Sprintf("result non-nil=%v, spec says %v (result %v)", r != nil, o.NonNil, r))
 	}
@@ -246,7 +380,7 @@ func replayTerm(in input) (res map[string]any) {
 		}
 	}
 	if !o.Agg {
-		return map[string]any{"n": in.N, "ok": true}
+		return "", ""
 	}
 	// ---- Unwind
 	var exp []string
@@ -326,14 +460,15 @@ func replayTerm(in input) (res map[string]any) {
 			return bad("iterator-bag", fmt.Sprintf("Collector.Iterator yields %v, constituents %v", ids, exp))
 		}
 	}
-	return map[string]any{"n": in.N, "ok": true}
+	return "", ""
 }
 
 // ------------------------------------------------------------------ collector scripts / histories
 
 type sop struct {
-	Op  string `json:"op"`
-	Arg string `json:"arg"`
+	Op  string   `json:"op"`
+	Arg string   `json:"arg"`
+	IDs []string `json:"ids"`
 }
 
 type scriptIn struct {
@@ -344,6 +479,79 @@ type scriptIn struct {
 type leafErr struct{ id string }
 
 func (e *leafErr) Error() string { return e.id }
+
+// composites whose Unwind()/Unwrap() []error parks at a gate: the goroutine that flattens one is
+// "descheduled" inside the caller's own method until the driver releases it (hold steps)
+type gUnwind struct {
+	errs []error
+	g    *rt.Gates
+}
+type gUnwrap struct {
+	errs []error
+	g    *rt.Gates
+}
+
+func (h *gUnwind) Error() string   { return "gated-unwind" }
+func (h *gUnwind) Unwind() []error { h.g.Arrive("hold"); return h.errs }
+func (h *gUnwrap) Error() string   { return "gated-unwrap" }
+func (h *gUnwrap) Unwrap() []error { h.g.Arrive("hold"); return h.errs }
+
+func leaves(ids []string) []error {
+	out := make([]error, len(ids))
+	for i, id := range ids {
+		out[i] = &leafErr{id}
+	}
+	return out
+}
+
+// withHoles: nil, e1, nil, nil, e2, ... (a nil before every element, two before every second)
+func withHoles(es []error) []error {
+	out := []error{}
+	for i, e := range es {
+		out = append(out, nil)
+		if i%2 == 1 {
+			out = append(out, nil)
+		}
+		out = append(out, e)
+	}
+	return append(out, nil)
+}
+
+// composite builds a composite error of the given kind out of fresh leaves
+func composite(kind string, ids []string, g *rt.Gates) error {
+	es := leaves(ids)
+	switch kind {
+	case "join":
+		return errors.Join(es...)
+	case "fmtw": // several %w: Unwrap() []error (with one %w it would be a singly wrapped error = ONE constituent)
+		if len(es) < 2 {
+			return errors.Join(es...)
+		}
+		args := make([]any, len(es))
+		for i := range es {
+			args[i] = es[i]
+		}
+		return fmt.Errorf("fmtw"+strings.Repeat(" %w", len(es)), args...)
+	case "stack":
+		st := &ers.Stack{}
+		st.Add(es...)
+		return st
+	case "hunwind":
+		return &hUnwind{"c", withHoles(es)}
+	case "hunwrap":
+		return &hUnwrap{"c", withHoles(es)}
+	case "nested":
+		k := len(es) / 2
+		return errors.Join(errors.Join(es[:k]...), &hUnwrap{"c", withHoles(es[k:])})
+	case "gunwind":
+		return &gUnwind{withHoles(es), g}
+	case "gunwrap":
+		return &gUnwrap{withHoles(es), g}
+	}
+	panic("unknown composite kind " + kind)
+}
+
+func nilStack() error { var st *ers.Stack; return st }
 
 func idsOf(errs []error) []string {
 	out := []string{}
@@ -381,22 +589,48 @@ func final(rec *rt.Recorder, c *erc.Collector, id int64) {
 	rec.Log(ev("final", id, "final", arg, strconv.Itoa(c.Len()), idsOf(ers.Unwind(r))))
 }
 
-func runScript(in scriptIn) map[string]any {
+// runScript executes one CollectorStep schedule.  Outside a hold every step runs on the driver
+// goroutine; from a "hold" to its "release" every step runs on its own goroutine and the driver waits
+// for quiescence (the step returned, or is parked behind the held Add) before it issues the next one.
+func runScript(in scriptIn) (out map[string]any) {
 	rec := &rt.Recorder{}
 	c := &erc.Collector{}
+	gates := rt.NewGates()
+	var mu sync.Mutex
 	its := map[string]*fun.Iterator[error]{}
 	var id int64
-	for _, s := range in.Beh {
-		id++
-		rec.Log(ev("call", id, s.Op, s.Arg, "-", nil))
+	held := false
+	var pending []*rt.Op
+	var panicked atomic.Value
+
+	exec := func(s sop, k int64) {
+		defer func() {
+			if r := recover(); r != nil {
+				panicked.CompareAndSwap(nil, fmt.Sprintf("%s(%s) panicked: %v", s.Op, s.Arg, r))
+			}
+		}()
+		op, arg := s.Op, s.Arg
+		if op == "hold" {
+			op = "addc"
+		}
+		rec.Log(ev("call", k, op, arg, "-", s.IDs))
 		res := "ok"
 		switch s.Op {
 		case "add":
-			if s.Arg == "nil" {
+			switch s.Arg {
+			case "nil":
 				c.Add(nil)
-			} else {
+			case "nstack":
+				if k%2 == 0 {
+					c.Add(nilStack())
+				} else {
+					c.Add(ers.AsStack(nil))
+				}
+			default:
 				c.Add(&leafErr{s.Arg})
 			}
+		case "addc", "hold":
+			c.Add(composite(s.Arg, s.IDs, gates))
 		case "len":
 			res = strconv.Itoa(c.Len())
 		case "resolve":
@@ -406,20 +640,86 @@ func runScript(in scriptIn) map[string]any {
 				res = "err"
 			}
 		case "open":
-			its[s.Arg] = c.Iterator()
+			it := c.Iterator()
+			mu.Lock()
+			its[s.Arg] = it
+			mu.Unlock()
 		case "read":
-			res = readRes(its[s.Arg])
+			mu.Lock()
+			it := its[s.Arg]
+			mu.Unlock()
+			res = readRes(it)
 		default:
 			panic("unknown op " + s.Op)
 		}
-		rec.Log(ev("ret", id, s.Op, s.Arg, res, nil))
+		rec.Log(ev("ret", k, op, arg, res, s.IDs))
 	}
-	final(rec, c, id+1)
+	release := func() string {
+		gates.Disarm("hold")
+		if _, err := rt.Quiesce(); err != nil {
+			return "no quiescence after release"
+		}
+		for _, o := range pending {
+			if !o.Done() {
+				return "an operation issued during the hold has not returned although the held Add was released"
+			}
+		}
+		pending, held = nil, false
+		return ""
+	}
+	for _, s := range in.Beh {
+		if panicked.Load() != nil {
+			break
+		}
+		if s.Op == "release" {
+			if msg := release(); msg != "" {
+				return map[string]any{"n": in.N, "infra": msg}
+			}
+			continue
+		}
+		id++
+		if s.Op == "hold" {
+			gates.Arm("hold")
+			held = true
+		}
+		if !held {
+			exec(s, id)
+			continue
+		}
+		k := id
+		pending = append(pending, rt.Start(int(k), func() any { exec(s, k); return nil }))
+		if _, err := rt.Quiesce(); err != nil {
+			gates.Disarm("hold")
+			return map[string]any{"n": in.N, "infra": "no quiescence after issuing " + s.Op}
+		}
+	}
+	if held {
+		if msg := release(); msg != "" {
+			return map[string]any{"n": in.N, "infra": msg}
+		}
+	}
+	if p := panicked.Load(); p != nil {
+		return map[string]any{"n": in.N, "panic": p, "hist": rec.Events()}
+	}
+	func() {
+		defer func() {
+			if r := recover(); r != nil {
+				out = map[string]any{"n": in.N, "panic": fmt.Sprintf("final observation panicked: %v", r), "hist": rec.Events()}
+			}
+		}()
+		final(rec, c, id+1)
+	}()
+	if out != nil {
+		return out
+	}
 	return map[string]any{"n": in.N, "hist": rec.Events()}
 }
 
-// record runs n random concurrent scenarios: several goroutines Add fresh errors / nil, call Len,
-// Resolve, and open, read and drain iterators while the others keep adding.
+var compKinds = []string{"join", "fmtw", "stack", "hunwind", "hunwrap", "nested"}
+
+// record runs n random concurrent scenarios: several goroutines Add fresh errors / composites of fresh
+// errors / nil / a nil *ers.Stack, call Len, Resolve, and open, read and drain iterators while the others
+// keep adding.
 func record(n int, seed int64, burst bool) {
 	rng := rand.New(rand.NewSource(seed))
 	for i := 0; i < n; i++ {
@@ -428,6 +728,7 @@ func record(n int, seed int64, burst bool) {
 		c := &erc.Collector{}
 		var id, fresh atomic.Int64
 		var sw sync.WaitGroup
+		var panicked atomic.Value
 		start := make(chan struct{})
 		nthreads := 2 + rng.Intn(3)
 		for t := 0; t < nthreads; t++ {
@@ -436,6 +737,11 @@ func record(n int, seed int64, burst bool) {
 			sw.Add(1)
 			go func() {
 				defer sw.Done()
+				defer func() {
+					if p := recover(); p != nil {
+						panicked.CompareAndSwap(nil, fmt.Sprintf("a Collector operation panicked: %v", p))
+					}
+				}()
 				<-start
 				var it *fun.Iterator[error]
 				hname := ""
@@ -443,15 +749,29 @@ func record(n int, seed int64, burst bool) {
 				for j := 0; j < nops; j++ {
 					k := id.Add(1)
 					switch x := r.Intn(12); {
-					case x < 5:
+					case x < 3:
 						arg := "e" + strconv.FormatInt(fresh.Add(1), 10)
 						rec.Log(ev("call", k, "add", arg, "-", nil))
 						c.Add(&leafErr{arg})
 						rec.Log(ev("ret", k, "add", arg, "ok", nil))
+					case x < 5:
+						kind := compKinds[r.Intn(len(compKinds))]
+						ids := []string{}
+						for m := r.Intn(4); m > 0; m-- {
+							ids = append(ids, "e"+strconv.FormatInt(fresh.Add(1), 10))
+						}
+						e := composite(kind, ids, nil)
+						rec.Log(ev("call", k, "addc", kind, "-", ids))
+						c.Add(e)
+						rec.Log(ev("ret", k, "addc", kind, "ok", ids))
 					case x < 6:
-						rec.Log(ev("call", k, "add", "nil", "-", nil))
-						c.Add(nil)
-						rec.Log(ev("ret", k, "add", "nil", "ok", nil))
+						arg, e := "nil", error(nil)
+						if r.Intn(2) == 0 {
+							arg, e = "nstack", nilStack()
+						}
+						rec.Log(ev("call", k, "add", arg, "-", nil))
+						c.Add(e)
+						rec.Log(ev("ret", k, "add", arg, "ok", nil))
 					case x < 7:
 						rec.Log(ev("call", k, "len", "-", "-", nil))
 						v := c.Len()
@@ -497,6 +817,10 @@ func record(n int, seed int64, burst bool) {
 		}
 		close(start)
 		sw.Wait()
+		if p := panicked.Load(); p != nil {
+			rt.Emit(map[string]any{"panic": p, "hist": rec.Events()})
+			continue
+		}
 		if burst {
 			doBurst(rec, c, &id, &fresh)
 		}
@@ -505,7 +829,8 @@ func record(n int, seed int64, burst bool) {
 	}
 }
 
-// doBurst: many Adds at the same time, nothing else running.  One call event (all ids) is logged before
+// doBurst: many Adds at the same time, nothing else running; every fourth Add is a composite of two
+// fresh errors (the kinds take turns).  One call event (all ids) is logged before
 // the first Add starts and one ret event after the last returned, so the recorder's own lock does not
 // serialise the Adds; the workers leave a spin barrier together so that they really overlap.
 func doBurst(rec *rt.Recorder, c *erc.Collector, id, fresh *atomic.Int64) {
@@ -518,7 +843,13 @@ func doBurst(rec *rt.Recorder, c *erc.Collector, id, fresh *atomic.Int64) {
 		for j := 0; j < each; j++ {
 			arg := "e" + strconv.FormatInt(fresh.Add(1), 10)
 			ids = append(ids, arg)
-			errs[w] = append(errs[w], &leafErr{arg})
+			if j%4 != 1 {
+				errs[w] = append(errs[w], &leafErr{arg})
+				continue
+			}
+			arg2 := "e" + strconv.FormatInt(fresh.Add(1), 10)
+			ids = append(ids, arg2)
+			errs[w] = append(errs[w], composite(compKinds[(j/4)%len(compKinds)], []string{arg, arg2}, nil))
 		}
 	}
 	k := id.Add(1)
